@@ -47,7 +47,8 @@ ASSUMPTIONS = [
     "a stall (victim waits for bytes that never come) is 'not completed'",
 ]
 MAX_WALL = {"quick": 240, "thorough": 3000}
-FL = [f for f in sorted(FLAVOURS) if f != "any"]
+FL = [f for f in sorted(FLAVOURS) if f != "any" and
+      not FLAVOURS[f].get("c08_only")]
 POOL = ["hello_request", "client_hello", "server_hello", "ccs",
         "finished_bad", "key_update", "nst13", "cert_request13", "appdata",
         "warning_alert", "heartbeat", "server_hello_done", "finished_copy",
